@@ -33,7 +33,17 @@ steps, in entrypoint.execute[0].args, in the override and in the user variables.
 variables are compared with coq/Dsl/Load.v [globals] (check_globals), every result goes through
 FlowIRConcrete.validate(), and a family of malformed DOCUMENTS (entrypoint missing / empty / unknown template,
 schema faults) must be rejected with a DSLInvalidError (possibly wrapped in ExperimentInvalidConfigurationError)
-that names a location, through every entry point."""
+that names a location, through every entry point.
+
+Scopes of names and value kinds in STRING context: the VARIABLES of a component are drawn from the same names as the
+parameters of the workflows that call it (directly or further up the chain; never a parameter of the component
+itself) and the colliding workflow parameter is forwarded in the arguments of the steps above the component -- a
+reference in an argument of a step belongs to the CALLER's scope, a reference in a field of the component to its
+variable.  A dictionary referenced inside a longer string (in the arguments a workflow passes to a step at any
+depth, in command.arguments of a component, or because a dictionary is supplied -- entrypoint arguments, override,
+step arguments -- for a parameter that is interpolated further down) makes the namespace invalid: mutant classes
+dict_spliced_args / dict_spliced_component / dict_for_text; the model's subst_d (coq/Dsl/Model.v) and the
+specification's dict_ok (coq/Dsl/Spec.v) carry the rule."""
 import json
 import os
 import re
@@ -50,7 +60,10 @@ ASSUMPTIONS = [
     'ParameterPattern, LegacyReferencePattern, SignatureNamePattern) and pydantic validation are glue, exercised only '
     'through the renderer of harness/c06.py (several spellings per token) and the correspondence run',
     'fragment: values are strings, numbers (int/float; read as their Python str() when interpolated), null (entry '
-    'instance only) and dictionaries (forwarded whole, used as command.environment only); booleans and lists are not '
+    'instance only) and dictionaries (forwarded whole and used as command.environment, or - invalid - spliced into a '
+    'longer string; a dictionary is ONE literal token holding its JSON text, which starts with "{" and no literal text '
+    'of the fragment does; a dictionary reference preceded only by parameters bound to the empty text is not '
+    'generated); booleans and lists are not '
     'legal ParameterValueType (a list is a schema fault, checked through the configuration loader only); '
     'a partial reference (<a/b> without :method) is the sole content of a value; '
     'literal text avoids < > % " / : ; no "replica", no workflowAttributes/replicate, no environments, no key outputs, '
@@ -302,6 +315,10 @@ class Invalid(Exception):
 _NAME = re.compile(r'(stage(?P<stage>([0-9]+))\.)?(?P<name>([A-Za-z0-9._-]*[A-Za-z_-]+))')
 
 
+def is_dict_value(b):
+    return b is not None and len(b) == 1 and b[0][0] == 'V' and isinstance(b[0][1], dict)
+
+
 def spec(ns):
     """denotational flattener: {location: (closed argument tokens, {(producer location, file, method)})}
     raises Invalid for a namespace the property calls invalid"""
@@ -319,6 +336,12 @@ def spec(ns):
     instances = {}
 
     def ev(v, env, loc, siblings, keep=()):
+        # a parameter bound to a dictionary may only be referenced by a value that is nothing but that reference
+        # (the dictionary is then forwarded whole); spliced into more text it makes the namespace invalid
+        if not (len(v) == 1 and v[0][0] == 'P'):
+            for t in v:
+                if t[0] in ('P', 'PO') and not (t[0] == 'P' and t[1] in keep) and is_dict_value(env.get(t[1])):
+                    raise Invalid('dictionary parameter %s spliced into a longer string' % t[1])
         out = []
         for t in v:
             if t[0] in ('L', 'V'):
@@ -620,16 +643,23 @@ class Gen(object):
                 if r.random() < 0.2:
                     args += [L(' '), PO(pn, [], r.choice(METHODS))]
         cvars = []
-        if r.random() < 0.3:
-            v = r.choice(['v', 'w.z'])
-            cvars = [v]
-            args += [L(' '), P(v)]
+        if r.random() < 0.4:
+            # the component's own VARIABLES: private names, or (legal: no parameter of the component itself is
+            # shadowed) names that parameters of CALLING workflows may carry -- a reference in an argument of a step
+            # belongs to the caller's scope, a reference in the component's fields to the component's variable
+            if r.random() < 0.7:
+                free = [x for x in PARAM_NAMES if x not in names]
+                cvars = r.sample(free, min(len(free), r.choice([1, 1, 2])))
+            else:
+                cvars = [r.choice(['v', 'w.z'])]
+            for v in cvars:
+                args += [L(' '), P(v)]
         if r.random() < 0.5:
             args.append(self.lit())
         envp = None
         if r.random() < 0.3:
             # a dictionary parameter that becomes the environment of the task (command.environment: "%(envp)s")
-            envp = r.choice([x for x in PARAM_NAMES + ['env', 'e.v'] if x not in names])
+            envp = r.choice([x for x in PARAM_NAMES + ['env', 'e.v'] if x not in names and x not in cvars])
             params.insert(r.randrange(len(params) + 1), (envp, 'dict', self.env_value() if r.random() < 0.5 else None))
         t = {'kind': 'c', 'level': 0, 'name': name, 'params': params, 'vars': cvars, 'args': args, 'envp': envp}
         self.templates[name] = t
@@ -648,6 +678,30 @@ class Gen(object):
                 out.append([s] + p)
         return out
 
+    def vars_below(self, tname, limit=4):
+        """names of the variables of the components instantiated (at any depth) below an instance of tname"""
+        t = self.templates[tname]
+        if t['kind'] == 'c':
+            return set(t['vars'])
+        out = set()
+        if limit:
+            for _s, tn in t['steps']:
+                out |= self.vars_below(tn, limit - 1)
+        return out
+
+    def param_names(self, steps):
+        """names of the parameters of a new workflow; half of the time one of them is the name of a VARIABLE of a
+        component below one of its steps (name collision across scopes)"""
+        r = self.rng
+        names = r.sample(PARAM_NAMES, r.choice([0, 1, 2, 2, 3]))
+        below = sorted(set().union(*[self.vars_below(tn) for _s, tn in steps]) & set(PARAM_NAMES)) if steps else []
+        collide = None
+        if below and r.random() < 0.5:
+            collide = r.choice(below)
+            if collide not in names:
+                names = names[:-1] + [collide] if names and r.random() < 0.5 else names + [collide]
+        return names, collide
+
     def gen_workflow(self, name, level, entry=False):
         r = self.rng
         lower = [t for t in self.templates.values() if t['level'] < level]
@@ -661,9 +715,12 @@ class Gen(object):
             steps.append((s, r.choice(pool)['name']))
         # parameters of this workflow
         params = []
+        pnames, collide = self.param_names(steps)
         if not entry:
-            for pn in r.sample(PARAM_NAMES, r.choice([0, 1, 2, 2, 3])):
+            for pn in pnames:
                 kr = r.random()
+                if pn == collide and kr < 0.8:
+                    kr = 0.3        # text: forwarded inside the arguments of steps
                 if kr < 0.12:
                     kind = 'dict'
                 elif kr < 0.5:
@@ -680,8 +737,8 @@ class Gen(object):
                 params.append((pn, kind, default))
         else:
             # the ENTRY template: text (string / number / null) and dictionary parameters, defaulted or not
-            for pn in r.sample(PARAM_NAMES, r.choice([0, 1, 2, 2, 3])):
-                if r.random() < 0.3:
+            for pn in pnames:
+                if r.random() < (0.3 if pn != collide else 0.1):
                     params.append((pn, 'dict', self.env_value() if r.random() < 0.5 else None))
                 else:
                     params.append((pn, 'text', self.text_default(entry=True) if r.random() < 0.5 else None))
@@ -690,8 +747,13 @@ class Gen(object):
             t = self.templates[tn]
             earlier = steps[:i]
             args = []
+            coll = [x for x, k, _d in params if k == 'text' and x in self.vars_below(tn)]
             for pn, kind, default in t['params']:
                 v = self.supply(kind, params, earlier)
+                if kind == 'text' and coll and r.random() < 0.5:
+                    # forward the parameter whose name a variable of a component below this step carries
+                    c = r.choice(coll)
+                    v = r.choice([[P(c)], [self.lit(), P(c)], [P(c), L(' '), self.lit()]])
                 if v is None:
                     if kind == 'text':
                         v = [self.lit()]
@@ -847,6 +909,33 @@ def gen_namespace(rng):
     raise RuntimeError('generator failed')
 
 
+def var_collisions(ns):
+    """coverage counters: a component VARIABLE carries the name of a parameter of a calling workflow"""
+    tm = {t['name']: t for t in ns['wfs'] + ns['comps']}
+
+    def below(tn, limit=5):
+        t = tm.get(tn)
+        if t is None:
+            return set()
+        if 'steps' not in t:
+            return set(t['vars'])
+        return set().union(*[below(x, limit - 1) for _s, x in t['steps']]) if limit and t['steps'] else set()
+    out = set()
+    for w in reachable_wfs(ns):
+        pn = set(p[0] for p in w['params'])
+        steps = dict(w['steps'])
+        for tg, args in w['exec']:
+            b = below(steps.get(tg)) & pn
+            if not b:
+                continue
+            out.add('a component variable is called like a parameter of a workflow on its call chain')
+            if any(t[0] in ('P', 'PO') and t[1] in b for _n, v in args for t in v):
+                out.add('... and that parameter is referenced in the arguments passed towards the component')
+                if 'steps' in tm.get(steps.get(tg), {}):
+                    out.add('... through at least one intermediate workflow')
+    return sorted(out)
+
+
 def reachable_wfs(ns):
     t = {w['name']: w for w in ns['wfs']}
     seen, todo = [], [ns['entry']]
@@ -861,7 +950,18 @@ def reachable_wfs(ns):
 KINDS = ['unknown_template', 'cycle', 'missing_arg', 'unknown_arg', 'unknown_param', 'non_sibling',
          'not_executed', 'no_step', 'dup_template', 'unknown_entry', 'ref_to_workflow',
          'dangling_in_workflow', 'digit_name', 'dup_execute', 'entry_unknown_arg', 'entry_ref',
-         'override_unknown', 'entry_missing_arg']
+         'override_unknown', 'entry_missing_arg',
+         # value KINDS in string context: a dictionary spliced into a longer string (in the arguments a workflow passes
+         # to a step / in a field of a component), a dictionary supplied where the text is interpolated further down
+         'dict_spliced_args', 'dict_spliced_component', 'dict_for_text']
+
+
+def splice(rng, d, text=None):
+    """a value that mixes the reference to the (dictionary) parameter d with more text"""
+    shapes = [[L('--env '), P(d)], [P(d), L(' tail')], [L('a '), P(d), L(' b')], [L('x='), P(d), P(d)]]
+    if text is not None:
+        shapes += [[P(text), L(' '), P(d)], [P(d), L(' '), P(text)]]
+    return rng.choice(shapes)
 
 
 def mutate(ns, rng, kind=None):
@@ -941,6 +1041,54 @@ def mutate(ns, rng, kind=None):
         ns['eargs'] = [a for a in ns['eargs'] if a[0] != pn]
         if ns['override'] is not None:
             ns['override'] = [a for a in ns['override'] if a[0] != pn]
+    elif kind == 'dict_spliced_args':
+        # a workflow (any depth) splices one of its dictionary parameters into the text it passes to a step
+        cands = []
+        for w2 in rw:
+            k2 = ns['kinds'].get(w2['name'], {})
+            dicts = [p for p, k in k2.items() if k == 'dict']
+            st2 = dict(w2['steps'])
+            for i, (tg2, _a) in enumerate(w2['exec']):
+                texts = [p for p, k in ns['kinds'].get(st2.get(tg2), {}).items() if k == 'text']
+                if dicts and texts:
+                    cands.append((w2, i, dicts, texts, [p for p, k in k2.items() if k == 'text']))
+        if not cands:
+            return None
+        w2, i, dicts, texts, wtexts = rng.choice(cands)
+        tg2, args2 = w2['exec'][i]
+        pn = rng.choice(texts)
+        v = splice(rng, rng.choice(dicts), rng.choice(wtexts) if wtexts else None)
+        w2['exec'][i] = (tg2, [a for a in args2 if a[0] != pn] + [(pn, v)])
+    elif kind == 'dict_spliced_component':
+        # a component splices its dictionary parameter (its environment) into command.arguments
+        used = set(tn for w2 in rw for _s, tn in w2['steps'])
+        cs = [c for c in ns['comps'] if c.get('envp') and c['name'] in used]
+        if not cs:
+            return None
+        c = rng.choice(cs)
+        texts = [p for p, k in ns['kinds'].get(c['name'], {}).items() if k == 'text']
+        v = splice(rng, c['envp'], rng.choice(texts) if texts else None)
+        c['args'] = (c['args'] + [L(' ')] + v) if rng.random() < 0.6 else (v + [L(' ')] + c['args'])
+    elif kind == 'dict_for_text':
+        # a dictionary is supplied (entrypoint arguments / override / the arguments of a step) for a parameter whose
+        # value is interpolated into text further down the call chain: the specification decides
+        d = [V(dict(rng.choice(ENVS)))]
+        e = tmap[ns['entry']]
+        etexts = [p for p, k in ns['kinds'].get(ns['entry'], {}).items() if k == 'text']
+        texts = [p for p, k in ns['kinds'].get(steps[tg], {}).items() if k == 'text']
+        if etexts and (not texts or rng.random() < 0.5):
+            pn = rng.choice(etexts)
+            if ns['override'] is not None and rng.random() < 0.5:
+                ns['override'] = [a for a in ns['override'] if a[0] != pn] + [(pn, d)]
+            else:
+                ns['eargs'] = [a for a in ns['eargs'] if a[0] != pn] + [(pn, d)]
+                if ns['override'] is not None:
+                    ns['override'] = [a for a in ns['override'] if a[0] != pn]
+        elif texts:
+            pn = rng.choice(texts)
+            w['exec'][ei] = (tg, [a for a in args if a[0] != pn] + [(pn, d)])
+        else:
+            return None
     elif kind == 'entry_ref':
         e = tmap[ns['entry']]
         if not e['params']:
@@ -1053,6 +1201,37 @@ CORPUS = [
     # the entry template is a Component with a dictionary parameter
     ('entry_component_dict', {'entry': 'say', 'eargs': [('msg', [V(42)])], 'sp': 0, 'override': [('env', [V({'A': 'b'})])],
                               'wfs': [], 'comps': [_ce('say', [('msg', None), ('env', [V({})])], [L('echo '), P('msg')], 'env')]}),
+    # references in the arguments of a step belong to the CALLER's scope: the component that receives them has a
+    # VARIABLE with the name of the parameter of the calling workflows (two levels, forwarded / mixed with text)
+    ('var_collision', {'entry': 'main', 'eargs': [('greeting', [L('hello')])], 'sp': 0,
+                       'wfs': [_w('main', [('greeting', [L('dflt')])], [('first', 'echo'), ('inner', 'nested')],
+                                  [('first', [('message', [P('greeting')])]),
+                                   ('inner', [('greeting', [P('greeting'), L(' forwarded')])])]),
+                               _w('nested', [('greeting', None)], [('second', 'echo'), ('plain', 'pecho')],
+                                  [('second', [('message', [L('nested says '), P('greeting')])]),
+                                   ('plain', [('message', [P('greeting')])])])],
+                       'comps': [_c('echo', [('message', None)], [P('message'), L(' - '), P('greeting')], ['greeting']),
+                                 _c('pecho', [('message', None)], [P('message')])]}),
+    # value kinds in string context: a dictionary forwarded whole through two workflow levels (valid; the component
+    # has a variable called like the workflows' parameter) ...
+    ('dict_whole_chain', {'entry': 'main', 'eargs': [('env', [V({'MODE': 'fast', 'THREADS': '4'})])], 'sp': 0,
+                          'wfs': [_w('main', [('env', None)], [('inner', 'nested')], [('inner', [('env', [P('env')])])]),
+                                  _w('nested', [('env', None)], [('run', 'runner')],
+                                     [('run', [('environment', [P('env')]), ('message', [L('hello')])])])],
+                          'comps': [dict(_ce('runner', [('environment', None), ('message', None)],
+                                             [P('message'), L(' - '), P('env')], 'environment'), vars=['env'])]}),
+    # ... spliced into the arguments of the component / into the text a workflow passes to its step (invalid)
+    ('dict_spliced_component', {'entry': 'main', 'eargs': [('env', [V({'MODE': 'fast'})])], 'sp': 0,
+                                'wfs': [_w('main', [('env', None)], [('inner', 'nested')], [('inner', [('env', [P('env')])])]),
+                                        _w('nested', [('env', None)], [('run', 'runner')],
+                                           [('run', [('environment', [P('env')]), ('message', [L('hello')])])])],
+                                'comps': [_ce('runner', [('environment', None), ('message', None)],
+                                              [P('message'), L(' --env '), P('environment')], 'environment')]}),
+    ('dict_spliced_args', {'entry': 'main', 'eargs': [], 'sp': 0,
+                           'wfs': [_w('main', [('env', [V({'A': 'b'})])], [('inner', 'nested')], [('inner', [('env', [P('env')])])]),
+                                   _w('nested', [('env', None)], [('run', 'runner')],
+                                      [('run', [('environment', [P('env')]), ('message', [L('running with '), P('env')])])])],
+                           'comps': [_ce('runner', [('environment', None), ('message', None)], [P('message')], 'environment')]}),
     # F6e (open): the only component step carries stage 1 -- compiles and validates, cannot be loaded
     ('F6e_stage_gap', {'entry': 'main', 'eargs': [], 'sp': 0,
                        'wfs': [_w('main', [], [('stage1.b', 'c')], [('stage1.b', [])])], 'comps': [_c('c', [], [L('hi')])]}),
@@ -1118,6 +1297,8 @@ def _explore(ctx, cases):
                 ctx.count('a component runs in a dictionary environment received through its parameters')
             if ns.get('override') is not None:
                 ctx.count('override_entrypoint_args given')
+            for what in var_collisions(eff):
+                ctx.count(what)
             t = [x for x in eff['comps'] + eff['wfs'] if x['name'] == eff['entry']][0]
             dflt = dict(t['params'])
             for n, v in [(n, dict(eff['eargs']).get(n, dflt[n])) for n in dflt]:
@@ -1269,7 +1450,7 @@ def run(ctx):
     ctx.rule = ('valid namespace with >= 2 component instances and >= 1 producer->consumer edge, or an invalid '
                 '(single-fault) namespace or malformed document; distinct by rendered document, override and entry point')
     rng = ctx.rng
-    n_valid, n_mut, n_conf = (700, 400, 90) if ctx.tier == 'quick' else (5000, 3000, 1000)
+    n_valid, n_mut, n_conf = (700, 470, 90) if ctx.tier == 'quick' else (5000, 3500, 1000)
     try:
         cases = []
         for k, ns in CORPUS:
